@@ -163,6 +163,24 @@ def check_case(case):
                     else:
                         raise Violation('variant/%s' % kind, 'P2PKH variant %s maps to %s %r' % (kind, type(a).__name__, str(a)))
                 cls.append('variant:' + kind)
+            elif act == 'badselect':
+                # a selection that is refused (unknown name) changes nothing; one that is honoured (an alias a later version may
+                # add) must switch BOTH parameter sets to the same chain
+                name = step['name']
+                try:
+                    bitcoin.SelectParams(name)
+                    refused = False
+                except Exception:
+                    refused = True
+                now = (bitcoin.params.NAME, bitcoin.core.coreparams.NAME)
+                if refused and now != (chain, chain):
+                    raise Violation('select/refused-but-switched', 'SelectParams(%r) raised, yet params.NAME=%r coreparams.NAME=%r (was %r)' % (name, now[0], now[1], chain))
+                if now[0] != now[1] or now[0] not in RC.CHAINS:
+                    raise Violation('select/inconsistent', 'after SelectParams(%r): params.NAME=%r coreparams.NAME=%r' % (name, now[0], now[1]))
+                c2 = RC.CHAINS[now[0]]
+                if (bitcoin.params.BASE58_PREFIXES['PUBKEY_ADDR'], bitcoin.params.BECH32_HRP, bitcoin.core.coreparams.PROOF_OF_WORK_LIMIT) != (c2['pubkey'], c2['hrp'], c2['limit']):
+                    raise Violation('select/params', 'parameters after SelectParams(%r) differ from the chain table' % name)
+                cls.append('badselect:' + ('refused' if refused else 'honoured'))
             elif act == 'derive':
                 # the other ways into the same address classes, each defined in its docstring by the standard template:
                 # from_pubkey = P2PKH of HASH160(pubkey); from_redeemScript = P2SH of HASH160(script); the witness key-hash
@@ -312,6 +330,9 @@ def s_step(draw):
         else:
             text = text[:i] + text[i].swapcase() + text[i + 1:]
         return {'chain': chain, 'act': 'parse', 'text': text, 'tag': 'mutated'}
+    if k == 14 and draw(st.integers(0, 3)) == 0:
+        return {'chain': chain, 'act': 'badselect', 'name': draw(st.sampled_from(['test', 'main', 'testnet3', '', 'MAINNET', 'Regtest', 'bitcoin', 'testnet4',
+                                                                                   'mainnet ', 'sig', 'regtest\n']))}
     if k == 14:
         if draw(st.booleans()):
             return {'chain': chain, 'act': 'derive', 'kind': 'pubkey', 'secret': draw(st.integers(1, 2 ** 20)), 'form': draw(st.sampled_from(['c', 'u', 'h', 'bad']))}
@@ -329,7 +350,8 @@ def s_step(draw):
             if pad < 5:
                 body[-1] &= ~((1 << pad) - 1) & 31
         data5 = [draw(st.sampled_from([0, 0, 0, 1, 16]))] + body
-        pm = B32.polyrem(B32.hrp_expand(hrp) + data5 + [0] * 6) ^ 1
+        # (one time in four: the checksum of ANOTHER code - Bech32m - over otherwise well-formed data)
+        pm = B32.polyrem(B32.hrp_expand(hrp) + data5 + [0] * 6) ^ draw(st.sampled_from([1, 1, 1, 0x2bc830a3]))
         text = hrp + '1' + ''.join(B32.CHARSET[x] for x in data5 + [(pm >> 5 * (5 - i)) & 31 for i in range(6)])
         return {'chain': chain, 'act': 'parse', 'text': text, 'tag': 'b32-raw5'}
     if k == 11:
